@@ -65,6 +65,11 @@ Proof.
     + cbn [fst snd]. rewrite Hh. split; [right; repeat split|]. split; [repeat split|discriminate].
 Qed.
 
+Lemma after_refresh_flags : forall c s sr, same_flags sr (after_refresh c s sr).
+Proof. intros. unfold after_refresh. destruct (c_restores_ovf c); repeat split. Qed.
+Lemma forget_flags : forall c s, same_flags s (forget c s).
+Proof. intros. unfold forget. destruct (c_resets_shape c); repeat split. Qed.
+
 Lemma stop_flags : forall c s, clean s \/ active s -> clean (fst (stop c s)).
 Proof.
   intros c s Hs. unfold stop. destruct (started s) eqn:Es; cbn [negb].
@@ -73,12 +78,17 @@ Proof.
     assert (F : same_flags (set_flags s false (hooks s) (redir s)) s1).
     { subst s1. destruct (c_progress c); [repeat split|].
       destruct (c_vis_unless_transient c && c_transient c); repeat split. }
-    pose proof (refresh_flags c s1) as Hf. destruct (refresh c s1) as [s2 raised]. cbn [fst] in Hf.
+    pose proof (refresh_flags c s1) as Hf. destruct (refresh c s1) as [sr raised]. cbn [fst] in Hf.
+    pose proof (after_refresh_flags c s sr) as (G1 & G2 & G3).
+    set (s2 := after_refresh c s sr) in *.
     destruct F as (A1 & A2 & A3). destruct Hf as (B1 & B2 & B3). cbn in A1, A2, A3.
     assert (Hh2 : hooks s2 = 1%nat) by congruence.
     destruct raised; cbn [fst].
     + repeat split; cbn; rewrite Hh2; reflexivity.
-    + destruct (c_transient c); cbn [fst]; repeat split; cbn; rewrite Hh2; reflexivity.
+    + destruct (c_transient c); cbn [fst];
+        match goal with |- clean (forget c ?x) =>
+          pose proof (forget_flags c x) as (K1 & K2 & K3);
+          repeat split; [rewrite K1|rewrite K2|rewrite K3]; cbn; rewrite ?Hh2; reflexivity end.
   - destruct Hs as [Hc|[Ha _]]; [assumption|congruence].
 Qed.
 
@@ -272,7 +282,7 @@ Definition view_of (c : cfg) (s : st) : bool :=
 
 (* D18: Progress.start() refreshes after pushing the hook, outside any try: a column that raises
    leaves the hook, the redirection and the hidden cursor behind; __exit__ never runs. *)
-Definition d18_cfg (guarded : bool) : cfg := mkCfg true false OEllipsis 20 5 None (Some 0%nat) guarded false.
+Definition d18_cfg (guarded : bool) : cfg := mkCfg true false OEllipsis 20 5 None (Some 0%nat) guarded false false false false.
 Lemma d18_asis_refuted :
   let s := fst (run_block (d18_cfg false) (w_lines 1) [] []) in
   snd (run_block (d18_cfg false) (w_lines 1) [] []) = true /\ hooks s = 1%nat /\ redir s = true
@@ -286,33 +296,41 @@ Proof. vm_compute. repeat split. Qed.
 
 (* D23: Live.stop() forces vertical_overflow="visible" also when transient: a frame taller than the
    page is printed in full and its rows that scrolled off cannot be erased. *)
-Definition d23_cfg (guard : bool) : cfg := mkCfg false true OEllipsis 20 3 None None true guard.
+Definition d23_cfg (guard room : bool) : cfg := mkCfg false true OEllipsis 20 3 None None true guard false false room.
 Definition d23_ops : list op := [Print (w_lines 1); Start; Refresh; Stop].
-Lemma d23_asis_refuted : view_of (d23_cfg false) (fst (run_ops (d23_cfg false) (st0 (d23_cfg false) (w_lines 5)) d23_ops)) = false.
+Definition d23_run (guard room : bool) (n : nat) : st :=
+  fst (run_ops (d23_cfg guard room) (st0 (d23_cfg guard room) (w_lines n)) d23_ops).
+Lemma d23_asis_refuted : view_of (d23_cfg false false) (d23_run false false 5) = false.
 Proof. vm_compute. reflexivity. Qed.
 (* ... and not forcing "visible" for transient displays is not enough: a frame of exactly H rows
    (which is what crop/ellipsis produce) loses its first row to the scroll-back at the final newline *)
-Lemma d23_guarded_still_refuted : view_of (d23_cfg true) (fst (run_ops (d23_cfg true) (st0 (d23_cfg true) (w_lines 5)) d23_ops)) = false.
+Lemma d23_guarded_still_refuted : view_of (d23_cfg true false) (d23_run true false 5) = false.
 Proof. vm_compute. reflexivity. Qed.
-Lemma d23_fits_ok : view_of (d23_cfg false) (fst (run_ops (d23_cfg false) (st0 (d23_cfg false) (w_lines 2)) d23_ops)) = true.
+Lemma d23_fits_ok : view_of (d23_cfg false false) (d23_run false false 2) = true.
+Proof. vm_compute. reflexivity. Qed.
+(* repaired: no forced "visible" for a transient display AND its last frame cropped to H-1 rows *)
+Lemma d23_repaired_ok : view_of (d23_cfg true true) (d23_run true true 5) = true.
 Proof. vm_compute. reflexivity. Qed.
 
 (* no overflow handling at all in live_render.LiveRender (Progress): taller than the page = remnants *)
-Definition tall_cfg : cfg := mkCfg true false OEllipsis 20 3 None None true false.
+Definition tall_cfg : cfg := mkCfg true false OEllipsis 20 3 None None true false false false false.
 Lemma progress_too_tall_refuted :
   view_of tall_cfg (fst (run_ops tall_cfg (st0 tall_cfg (w_lines 5)) [Start; Print (w_lines 1)])) = false.
 Proof. vm_compute. reflexivity. Qed.
 
 (* "visible" overflow of a too-tall frame: documented upstream as not clearable *)
-Definition vis_cfg : cfg := mkCfg false false OVisible 20 3 None None true false.
+Definition vis_cfg : cfg := mkCfg false false OVisible 20 3 None None true false false false false.
 Lemma visible_too_tall_refuted :
   view_of vis_cfg (fst (run_ops vis_cfg (st0 vis_cfg (w_lines 5)) [Start; Refresh; Print (w_lines 1)])) = false.
 Proof. vm_compute. reflexivity. Qed.
 
 (* restart: stop() keeps LiveRender._shape, so the first draw after a second start() erases rows
    above the cursor that belong to the kept frame (or, when transient, to printed lines) *)
-Definition rs_cfg (tr : bool) : cfg := mkCfg false tr OEllipsis 20 8 None None true false.
+Definition rs_cfg (tr resets : bool) : cfg := mkCfg false tr OEllipsis 20 8 None None true false false resets false.
 Definition rs_ops : list op := [Print (w_lines 3); Start; Refresh; Stop; Start; Refresh].
 Lemma restart_refuted : forall tr,
-  view_of (rs_cfg tr) (fst (run_ops (rs_cfg tr) (st0 (rs_cfg tr) (w_lines 2)) rs_ops)) = false.
+  view_of (rs_cfg tr false) (fst (run_ops (rs_cfg tr false) (st0 (rs_cfg tr false) (w_lines 2)) rs_ops)) = false.
+Proof. intros []; vm_compute; reflexivity. Qed.
+Lemma restart_repaired_ok : forall tr,
+  view_of (rs_cfg tr true) (fst (run_ops (rs_cfg tr true) (st0 (rs_cfg tr true) (w_lines 2)) rs_ops)) = true.
 Proof. intros []; vm_compute; reflexivity. Qed.
